@@ -594,3 +594,233 @@ impl<T> std::ops::Index<usize> for Vec<T> {
         }
     }
 }
+
+// ---------------------------------------------------------------------------------------
+// smallvec::SmallVec<[T; N]> as an output list (new / push / iterate)
+// ---------------------------------------------------------------------------------------
+pub trait Array {
+    type Item;
+}
+impl<T, const N: usize> Array for [T; N] {
+    type Item = T;
+}
+pub struct SmallVec<A: Array>(Vec<A::Item>);
+impl<A: Array> Default for SmallVec<A> {
+    fn default() -> Self {
+        Self(Vec::new())
+    }
+}
+impl<A: Array> Clone for SmallVec<A>
+where
+    A::Item: Clone,
+{
+    fn clone(&self) -> Self {
+        Self(self.0.clone())
+    }
+}
+impl<A: Array> std::fmt::Debug for SmallVec<A> {
+    fn fmt(&self, _f: &mut std::fmt::Formatter<'_>) -> std::fmt::Result {
+        Ok(())
+    }
+}
+impl<A: Array> SmallVec<A> {
+    pub fn new() -> Self {
+        Self(Vec::new())
+    }
+    pub fn push(&mut self, t: A::Item) {
+        self.0.push(t)
+    }
+    pub fn len(&self) -> usize {
+        self.0.len()
+    }
+    pub fn is_empty(&self) -> bool {
+        self.0.is_empty()
+    }
+    pub fn iter(&self) -> VecIter<'_, A::Item> {
+        self.0.iter()
+    }
+    pub fn contains(&self, t: &A::Item) -> bool
+    where
+        A::Item: PartialEq,
+    {
+        self.0.contains(t)
+    }
+    pub fn extend(&mut self, it: impl IntoIterator<Item = A::Item>) {
+        self.0.extend(it)
+    }
+    pub fn get(&self, i: usize) -> Option<&A::Item> {
+        self.0.get(i)
+    }
+}
+impl<A: Array> IntoIterator for SmallVec<A> {
+    type Item = A::Item;
+    type IntoIter = VecIntoIter<A::Item>;
+    fn into_iter(self) -> Self::IntoIter {
+        self.0.into_iter()
+    }
+}
+impl<'a, A: Array> IntoIterator for &'a SmallVec<A> {
+    type Item = &'a A::Item;
+    type IntoIter = VecIter<'a, A::Item>;
+    fn into_iter(self) -> Self::IntoIter {
+        self.0.iter()
+    }
+}
+impl<A: Array> std::ops::Index<usize> for SmallVec<A> {
+    type Output = A::Item;
+    fn index(&self, idx: usize) -> &A::Item {
+        &self.0[idx]
+    }
+}
+impl<A: Array> FromIterator<A::Item> for SmallVec<A> {
+    fn from_iter<I: IntoIterator<Item = A::Item>>(it: I) -> Self {
+        let mut s = Self::new();
+        s.extend(it);
+        s
+    }
+}
+
+// ---------------------------------------------------------------------------------------
+// stand-ins for consensus::pool::sorted_vec::{SortedVecMap, SortedVecSet} (sorted SmallVec
+// containers of alpenglow; replaced as container plumbing, verified separately)
+// ---------------------------------------------------------------------------------------
+pub struct SortedVecMap<K, V>(BTreeMap<K, V>);
+impl<K: Ord, V> Default for SortedVecMap<K, V> {
+    fn default() -> Self {
+        Self(BTreeMap::new())
+    }
+}
+impl<K: Clone, V: Clone> Clone for SortedVecMap<K, V> {
+    fn clone(&self) -> Self {
+        Self(self.0.clone())
+    }
+}
+impl<K, V> std::fmt::Debug for SortedVecMap<K, V> {
+    fn fmt(&self, _f: &mut std::fmt::Formatter<'_>) -> std::fmt::Result {
+        Ok(())
+    }
+}
+impl<K: Ord, V> SortedVecMap<K, V> {
+    pub fn new() -> Self {
+        Self::default()
+    }
+    pub fn get(&self, k: &K) -> Option<&V> {
+        self.0.get(k)
+    }
+    pub fn get_mut(&mut self, k: &K) -> Option<&mut V> {
+        self.0.get_mut(k)
+    }
+    pub fn get_or_insert_with(&mut self, k: &K, default: impl FnOnce() -> V) -> &mut V
+    where
+        K: Clone,
+    {
+        self.0.entry(k.clone()).or_insert_with(default)
+    }
+}
+pub struct SortedVecSet<T>(BTreeMap<T, ()>);
+impl<T: Ord> Default for SortedVecSet<T> {
+    fn default() -> Self {
+        Self(BTreeMap::new())
+    }
+}
+impl<T: Clone> Clone for SortedVecSet<T> {
+    fn clone(&self) -> Self {
+        Self(self.0.clone())
+    }
+}
+impl<T> std::fmt::Debug for SortedVecSet<T> {
+    fn fmt(&self, _f: &mut std::fmt::Formatter<'_>) -> std::fmt::Result {
+        Ok(())
+    }
+}
+impl<T: Ord> SortedVecSet<T> {
+    pub fn new() -> Self {
+        Self::default()
+    }
+    pub fn insert(&mut self, t: T) -> bool {
+        if self.0.contains_key(&t) {
+            false
+        } else {
+            self.0.insert(t, ());
+            true
+        }
+    }
+    pub fn contains(&self, t: &T) -> bool {
+        self.0.contains_key(t)
+    }
+    pub fn remove(&mut self, t: &T) -> bool {
+        self.0.remove(t).is_some()
+    }
+    pub fn is_empty(&self) -> bool {
+        self.0.is_empty()
+    }
+}
+impl<T: Ord + Clone> IntoIterator for SortedVecSet<T> {
+    type Item = T;
+    type IntoIter = VecIntoIter<T>;
+    /// ascending order, like the sorted vector it stands for
+    fn into_iter(self) -> Self::IntoIter {
+        let mut out = Vec::new();
+        for (k, _) in self.0.iter() {
+            out.push(k.clone());
+        }
+        out.into_iter()
+    }
+}
+
+// ---------------------------------------------------------------------------------------
+// tokio::sync::mpsc::Sender stand-in: anything reaching tokio's mpsc is a Kani internal
+// compiler error.  A never-blocking recording queue (FIFO, bounded by CAP): back-pressure
+// and closed channels are outside every claim that uses it.
+// ---------------------------------------------------------------------------------------
+pub mod chan {
+    pub struct SendError<T>(pub T);
+    impl<T> std::fmt::Debug for SendError<T> {
+        fn fmt(&self, _f: &mut std::fmt::Formatter<'_>) -> std::fmt::Result {
+            Ok(())
+        }
+    }
+    pub struct Sender<T> {
+        q: *mut super::Vec<T>,
+    }
+    // SAFETY: harnesses are single-threaded; the queue outlives the sender (leaked)
+    unsafe impl<T> Send for Sender<T> {}
+    unsafe impl<T> Sync for Sender<T> {}
+    impl<T> Clone for Sender<T> {
+        fn clone(&self) -> Self {
+            Self { q: self.q }
+        }
+    }
+    impl<T> Sender<T> {
+        pub async fn send(&self, t: T) -> Result<(), SendError<T>> {
+            // SAFETY: see above
+            unsafe { (*self.q).push(t) };
+            Ok(())
+        }
+    }
+    /// Lets the (never executed under Kani) node start-up code that creates real tokio
+    /// channels keep compiling when `pool.rs` is redirected to this sender.
+    impl<T> From<tokio::sync::mpsc::Sender<T>> for Sender<T> {
+        fn from(_s: tokio::sync::mpsc::Sender<T>) -> Self {
+            channel().0
+        }
+    }
+    /// The receiving side: the harness reads what was sent.
+    pub struct Queue<T> {
+        q: *mut super::Vec<T>,
+    }
+    impl<T> Queue<T> {
+        pub fn len(&self) -> usize {
+            // SAFETY: see above
+            unsafe { (*self.q).len() }
+        }
+        pub fn get(&self, i: usize) -> Option<&T> {
+            // SAFETY: see above
+            unsafe { (*self.q).get(i) }
+        }
+    }
+    pub fn channel<T>() -> (Sender<T>, Queue<T>) {
+        let q: *mut super::Vec<T> = Box::leak(Box::new(super::Vec::new()));
+        (Sender { q }, Queue { q })
+    }
+}
